@@ -65,6 +65,13 @@ def correspond(ctx, scale):
                 from einops import repeat as _repeat
                 ckw['codebook_transform_fn'] = lambda e, b_=b, n_=n: _repeat(e, 'h c d -> h b n c d', b=b_, n=n_)
                 dist['with_identity_transform_fn'] = dist.get('with_identity_transform_fn', 0) + 1
+            if (t + ci) % 3 == 1 and not cosine and 'indices' not in ckw and mode == 'train':
+                # the caller's input in ANOTHER dtype (uint8 / int8 pixel-like data, float16 / bfloat16 activations, float64): the codebook is float32,
+                # revived codes and their running sums are the batch vectors as float32 numbers
+                dt_in = [torch.float16, torch.int8, torch.bfloat16, torch.uint8, torch.float64][(ci // 3 + t) % 5]
+                # integer data at pixel-like magnitudes (twice a value no longer fits the narrow type), float data as it is
+                x = ((x * 80).abs().round().clamp(0, 255) if dt_in == torch.uint8 else (x * 40).round().clamp(-120, 120) if dt_in == torch.int8 else x).to(dt_in)
+                dist['input_dtype_' + str(dt_in).split('.')[-1]] = dist.get('input_dtype_' + str(dt_in).split('.')[-1], 0) + 1
             try:
                 ret, recs = vqrec.record_call(vq, x, **ckw)
             except Exception as ex:
